@@ -77,6 +77,8 @@ pub fn calculate(
 
     // Convert pools to sorted Vec for output
     let mut holdings: Vec<Section104Holding> = pools.into_values().collect();
+    #[cfg(feature = "verif-hooks")]
+    crate::verif::drained("holdings", &mut holdings, |h| h.ticker.clone());
     holdings.sort_by(|a, b| a.ticker.cmp(&b.ticker));
 
     Ok(TaxReport {
@@ -170,6 +172,9 @@ fn build_all_tax_year_summaries(
         });
     }
 
+    #[cfg(feature = "verif-hooks")]
+    crate::verif::drained("tax_years", &mut summaries, |s| s.period.to_string());
+
     // Sort by tax year (chronological order)
     summaries.sort_by_key(|s| s.period.start_year());
 
@@ -232,6 +237,11 @@ fn group_matches_into_disposals(match_results: Vec<MatchResult>) -> Vec<Disposal
             }
         })
         .collect();
+
+    #[cfg(feature = "verif-hooks")]
+    crate::verif::drained("disposals", &mut disposals, |d| {
+        format!("{} {}", d.date, d.ticker)
+    });
 
     crate::sort_by_date_ticker(
         &mut disposals,
